@@ -114,6 +114,30 @@ Fixpoint c12_run (l : list c12obj) (tr : list tev) : bool :=
 
 Definition P_C12_wire (tr : list tev) : bool := c12_run [] tr.
 
+(* close-object flag (C08/C12): an object packet carries the flag only if the object was removed
+   before, or the object is empty (its lone packet), or it is not a carousel object and this is the
+   last packet of its last transfer (packets on the wire = max_transfer_count x packets per transfer) *)
+Definition c12_close_ok (l : list c12obj) (e : tev) : bool :=
+  match e with
+  | TRead _ (RObj toi true) _ _ =>
+    match find_obj toi l with
+    | None => false
+    | Some x =>
+      match x_removed x with Some _ => true | None => false end
+      || Nat.eqb (x_npk x) 0
+      || (negb (x_car x) && Nat.eqb (S (x_sent x)) (N.to_nat (x_max x) * pk1 (x_npk x)))
+    end
+  | _ => true
+  end.
+
+Fixpoint c12_close_run (l : list c12obj) (tr : list tev) : bool :=
+  match tr with
+  | [] => true
+  | e :: r => c12_close_ok l e && c12_close_run (snd (c12_step l e)) r
+  end.
+
+Definition P_C12_close_flag (tr : list tev) : bool := c12_close_run [] tr.
+
 (* the transfer counter the sender reports (nb_transfers) against the wire: for every object
    in the FDT, total <= completed transfers on the wire <= total + 1, and a non-carousel
    object still listed has total < max *)
